@@ -18,6 +18,7 @@ import (
 	"github.com/pgavlin/dawn/internal/mvs"
 	"github.com/pgavlin/dawn/internal/project"
 	"github.com/pgavlin/dawn/internal/spell"
+	"github.com/pgavlin/dawn/internal/verifhook"
 	"github.com/pgavlin/dawn/label"
 	"github.com/pgavlin/dawn/runner"
 	"github.com/rjeczalik/notify"
@@ -477,7 +478,9 @@ func (proj *Project) loadPackage(wg *sync.WaitGroup, path string) error {
 
 	if wg == nil {
 		wg = &sync.WaitGroup{}
+		defer verifhook.Unblock("loadPackage.wait")
 		defer wg.Wait()
+		defer verifhook.Block("loadPackage.wait")
 	}
 
 	dir := filepath.Join(proj.root, path[2:])
@@ -497,7 +500,10 @@ func (proj *Project) loadPackage(wg *sync.WaitGroup, path string) error {
 			}
 		case e.Name() == "BUILD.dawn":
 			wg.Add(1)
+			verifhook.Spawn()
 			go func() {
+				verifhook.Begin("loadPackage")
+				defer verifhook.End()
 				proj.loadModule(nil, &label.Label{Kind: "module", Package: path, Name: "BUILD.dawn"})
 				wg.Done()
 			}()
@@ -508,14 +514,17 @@ func (proj *Project) loadPackage(wg *sync.WaitGroup, path string) error {
 }
 
 func (proj *Project) loadModule(waiter *module, label *label.Label) (starlark.StringDict, error) {
+	verifhook.Yield("loadModule.lookup")
 	proj.m.Lock()
 	if m, ok := proj.modules[label.String()]; ok {
 		proj.m.Unlock()
+		verifhook.Yield("loadModule.existing")
 
 		if waiter != nil {
 			waiter.setLoading(m)
 			defer waiter.setLoading(nil)
 		}
+		verifhook.Yield("loadModule.waiting")
 
 		return m.wait(waiter)
 	}
@@ -524,6 +533,7 @@ func (proj *Project) loadModule(waiter *module, label *label.Label) (starlark.St
 	m.cond = sync.NewCond(&m.m)
 	proj.modules[label.String()] = m
 	proj.m.Unlock()
+	verifhook.Yield("loadModule.registered")
 
 	if waiter != nil {
 		waiter.setLoading(m)
